@@ -22,7 +22,13 @@ CD_VALUES = ['attachment; filename=../x', 'attachment; filename=..', 'attachment
              'attachment; filename="../../../../tmp/evil"', 'filename=..\\..\\win',
              'attachment; filename="a\nb"', 'attachment; filename=\x01\x1f',
              'attachment; filename="."', 'attachment; filename=".."', 'inline',
-             'attachment; filename=x.', 'attachment; filename="x "', 'attachment; filename=é']
+             'attachment; filename=x.', 'attachment; filename="x "', 'attachment; filename=é',
+             'attachment; filename=" .. "', 'attachment; filename=" . "',
+             'attachment; filename=".. "', 'attachment; filename=" .."',
+             'attachment; filename="\t..\t"', 'attachment; filename=" ../x "',
+             'attachment; filename="..\x00"', 'attachment; filename="%2e%2e"',
+             'attachment; filename="..\r\n"', 'attachment; filename*=UTF-8\'\'..',
+             'attachment; filename="a"; filename=".."']
 
 
 def configs():
@@ -221,7 +227,10 @@ def run_cd(job, res, seen):
                         res['outcomes'][k] = res['outcomes'].get(k, 0) + 1
                         res['extra']['namer_exceptions'] += 1
                         close_body(resp)
-                        continue
+                        # the path had been chosen before the open failed (e.g. "<prefix>/.."
+                        # is a directory): it is judged all the same
+                        if not getattr(session, '_filename', None):
+                            continue
                     p = session._filename
                     close_body(resp)
                     res['distinct'].add(h64(('cd', p[len(root):])))
